@@ -906,6 +906,81 @@ def exact_domains(ctx, r, thorough, out):
     return True
 
 
+# ------------------------------------------------------------------------------------------------------------------
+# the documented DEFAULT tolerances, at their boundary
+
+def default_tolerance_boundary(ctx, r, out):
+    """Constraints whose violation sits one step of 2^-40 below / above `atol + rtol*|rhs|` for the documented defaults
+    (rtol=1e-6, atol=1e-8, passed by omission), through every entry point that has its own copy of the defaults: `check_feasible`,
+    `from_samples_cqm`, `ExactCQMSolver.sample_cqm`.  Constant-only left-hand sides, so every float operation is exact: the
+    violation is `(rhs ± v) - rhs = v` with `v` a multiple of 2^-40, and the float tolerance differs from the exact rational
+    one by < 2^-70 while `v` is at least 2^-60 away from it (checked).  Returns False to stop."""
+    A, R = F(1e-8), F(1e-6)
+    cqm = CQM(); ref = c05.Ref(); src = []; lines = ['new']
+    code = "cqm.add_variable('BINARY', 'x')"
+    exec(code, dict(cqm=cqm)); src.append(code); ref.add_variable('BINARY', 'x', None, None); lines.append(f'addvar BINARY {lab("x")} - -')
+    ts = [('x', r.choice([1.0, -2.0, .5])), (r.randint(-4, 4) / 2,)]
+    code = f'cqm.set_objective({ts!r})'
+    exec(code, dict(cqm=cqm)); src.append(code); ref.set_objective_terms(ts); lines.append('objt ' + c05.terms_arg(ts))
+    ncons = r.choice([1, 2, 3, 4])
+    for n in range(ncons):
+        sense = r.choice(c05.SENSES)
+        rhs = F(r.choice([0, 0, 1, -1, 2, -2, .5, 3, -3.5, 4]))
+        tolx = A + R * abs(rhs)
+        nlo = (tolx * 2 ** 40).__floor__()
+        if min(tolx - F(nlo, 2 ** 40), F(nlo + 1, 2 ** 40) - tolx) < F(1, 2 ** 60):
+            continue
+        kind = r.choice(['just satisfied', 'just violated', 'just satisfied', 'just violated', 'half the tolerance', 'twice the tolerance'])
+        v = {'just satisfied': F(nlo, 2 ** 40), 'just violated': F(nlo + 1, 2 ** 40), 'half the tolerance': F(nlo // 2, 2 ** 40),
+             'twice the tolerance': F(2 * nlo + 2, 2 ** 40)}[kind]
+        off = rhs + v if sense == '<=' else rhs - v if sense == '>=' else rhs + r.choice([1, -1]) * v
+        assert F(float(off)) == off and F(float(off) - float(rhs)) == off - rhs
+        weight = r.choice([2.0, .5]) if r.random() < .4 else None
+        ts = [(float(off),)]
+        kw = f'label="c{n}"' + (f', weight={weight!r}, penalty="linear"' if weight is not None else '')
+        code = f'cqm.add_constraint({ts!r}, {sense!r}, {float(rhs)!r}, {kw})'
+        exec(code, dict(cqm=cqm)); src.append(code)
+        ref.add_constraint_terms(ts, sense, float(rhs), f'c{n}', weight, 'linear')
+        lines.append(f'cont {lab(f"c{n}")} {sense} {rat(float(rhs))} {"-" if weight is None else rat(weight)} 0 {c05.terms_arg(ts)}')
+        ctx.tick(f'default tolerances: {sense} {kind}' + (' (soft)' if weight is not None else ''))
+    clabels = list(ref.cons)
+    if not clabels:
+        return True
+    pre = c05.PRELUDE + 'from dimod import SampleSet, ExactCQMSolver\n' + '\n'.join(src) + '\n'
+    nontrivial = False
+    try:
+        es = dimod.ExactCQMSolver().sample_cqm(cqm)
+        for xv in (0, 1):
+            sample = {'x': xv}
+            per, feas, en = definition(ref, {'x': F(xv)}, A, R)
+            wsat = [per[l][3] for l in clabels]
+            nontrivial = nontrivial or not all(wsat)
+            cf = bool(cqm.check_feasible(sample))
+            ss = SampleSet.from_samples_cqm(sample, cqm)
+            gsat = [bool(b) for b in ss.record.is_satisfied[0]]
+            row = [i for i in range(len(es.record)) if int(es.record.sample[i][list(es.variables).index('x')]) == xv][0]
+            esat = [bool(b) for b in es.record.is_satisfied[row]]
+            checks = [('CQM.check_feasible', cf == feas, f'check_feasible({sample!r}) = {cf}, definition {feas}', f'assert cqm.check_feasible({sample!r}) == {feas}\n'),
+                      ('SampleSet.from_samples_cqm', gsat == wsat and bool(ss.record.is_feasible[0]) == feas and F(float(ss.record.energy[0])) == en,
+                       f'from_samples_cqm({sample!r}, cqm): is_satisfied {gsat}, is_feasible {bool(ss.record.is_feasible[0])}, energy {float(ss.record.energy[0])!r}; definition {wsat}, {feas}, {float(en)!r}',
+                       f'ss = SampleSet.from_samples_cqm({sample!r}, cqm)\nassert list(map(bool, ss.record.is_satisfied[0])) == {wsat!r} and bool(ss.record.is_feasible[0]) == {feas} and ss.record.energy[0] == {float(en)!r}, ss.record\n'),
+                      ('ExactCQMSolver.sample_cqm', esat == wsat and bool(es.record.is_feasible[row]) == feas and F(float(es.record.energy[row])) == en,
+                       f'ExactCQMSolver row x={xv}: is_satisfied {esat}, is_feasible {bool(es.record.is_feasible[row])}, energy {float(es.record.energy[row])!r}; definition {wsat}, {feas}, {float(en)!r}',
+                       f'es = ExactCQMSolver().sample_cqm(cqm)\nd = [d for d in es.data(["sample", "energy", "is_satisfied", "is_feasible"]) if d.sample["x"] == {xv}][0]\n'
+                       f'assert list(map(bool, d.is_satisfied)) == {wsat!r} and bool(d.is_feasible) == {feas} and d.energy == {float(en)!r}, d\n')]
+            for site, ok, what, check in checks:
+                if not ok:
+                    ctx.fail('property', site, 'default tolerances at their boundary', what + ' (rtol, atol left to their documented defaults 1e-6, 1e-8)',
+                             repro=pre + check, detail=dict(build=src))
+                    return False
+    except Exception as e:  # noqa
+        ctx.fail('property', 'CQM.check_feasible', 'raises', f'{type(e).__name__}: {e}', repro=pre + 'cqm.check_feasible({"x": 0})\n', detail=dict(build=src))
+        return False
+    ctx.case(('default-boundary', tuple(src)), nontrivial=nontrivial, sample=dict(build=src))
+    out.append(dict(lines=lines + [f'exact {rat(A)} {rat(R)}'], check=exact_cmp(es), src=list(src), rows=[]))
+    return True
+
+
 def run(ctx):
     r = ctx.rng
     n = ctx.scale(1400, 30000)
@@ -922,6 +997,9 @@ def run(ctx):
     thorough = ctx.scale(0, 1) == 1
     for _ in range(ctx.scale(60, 1500)):
         if not exact_domains(ctx, r, thorough, out):
+            break
+    for _ in range(ctx.scale(120, 3000)):
+        if not default_tolerance_boundary(ctx, r, out):
             break
     lines = [ln for o in out for ln in o['lines']]
     got = run_driver('cqmdriver', lines)
